@@ -10,7 +10,8 @@ RULE = ('one line = one whole operation history (`c08.hist`), one parameter set 
         'with a modulus above 2^8')
 ASSUMPTIONS = ['moduli are odd (the constructors take Odd<…>)',
                'const moduli are the fixed table in harness/src/ops/c08.rs (impl_modulus! needs literals)',
-               'boxed operands have the precision of the modulus (documented precondition, debug_assert only)']
+               'boxed operands have the precision of the modulus (documented precondition, debug_assert only)',
+               '`c08.hook.*` lines call almost_montgomery_mul(_by_one) / montgomery_reduction_inner on raw limb slices (unreduced inputs included) and read the private parameter fields, through crypto_bigint::verif_hooks']
 
 HERE = os.path.dirname(os.path.abspath(__file__))
 FIXED = [1, 2, 3, 4, 6, 8, 16, 32]          # widths with Concat (MontyParams::new)
@@ -134,6 +135,56 @@ def redc_lines(rng, n, m, reps):
         yield f"c08.redc {n} {hx(T % R)} {hx(T // R)} {hx(m)} {hx(k)}"
 
 
+def hook_lines(tier, rng, consts):
+    """`c08.hook.*`: almost_montgomery_mul / _by_one on UNREDUCED inputs (any x, y < B^n: all-ones, multiples of m,
+    values just below B^n with moduli just below B^n so that the `ts` overflow bit and `conditional_sub` fire, tiny
+    moduli so that floor(x/m) is huge), montgomery_reduction_inner on ANY double-width T (also T >= m*B^n, where the
+    meta carry is needed), and the private parameter fields through verif_fields()."""
+    quick = tier == 'quick'
+    W = 1 << 64
+    widths = [1, 2, 3, 4, 5, 7, 8, 16, 33] if quick else list(range(1, 13)) + [16, 17, 24, 32, 33, 48, 64]
+    for n in widths:
+        R = 1 << (64 * n)
+        ms = moduli(rng, n) + [R - 3, R - W + 1 if n > 1 else R - 5, (R >> 1) - 1, W - 1 if n > 1 else 5]
+        for m in dict.fromkeys(x for x in ms if 1 <= x < R and x & 1):
+            k = (-pow(m, -1, W)) % W
+            mh, kh = hx(m), hx(k)
+            near = lambda: R - 1 - rng.getrandbits(rng.randrange(1, 64))
+            xs = [R - 1, m, (R - 1) // m * m, 0, 1, near(), rng.getrandbits(64 * n), operand(rng, n, m), value(rng, n)]
+            ys = [R - 1, m, R - 2, near(), 1, rng.getrandbits(64 * n), value(rng, n)]
+            pairs = [(R - 1, R - 1), (R - 1, m), (m, m), (near(), near()), ((R - 1) // m * m, R - 1), (0, R - 1), (1, 1)]
+            for _ in range(3 if quick else 30):
+                pairs.append((rng.choice(xs), rng.choice(ys)))
+                pairs.append((rng.getrandbits(64 * n), rng.getrandbits(64 * n)))
+            if not quick:
+                pairs += [(x, y) for x in xs[:5] for y in ys[:4]]
+            for x, y in dict.fromkeys(pairs):
+                yield f"c08.hook.amm {n} {hx(x)} {hx(y)} {mh} {kh}"
+            for x in dict.fromkeys(xs):
+                yield f"c08.hook.amm_by_one {n} {hx(x)} {mh} {kh}"
+            Ts = [R * R - 1, m * R - 1, m * R, (m - 1) * (m - 1), R * R - R, R - 1, 0, m * R + R - 1]
+            Ts += [rng.randrange(R * R) for _ in range(3 if quick else 20)] + [rng.randrange(m * R) for _ in range(2 if quick else 20)]
+            Ts += [value(rng, 2 * n) for _ in range(2 if quick else 10)]
+            for T in dict.fromkeys(t for t in Ts if 0 <= t < R * R):
+                yield f"c08.hook.redc_inner {n} {hx(T % R)} {hx(T // R)} {mh} {kh}"
+        # a wrong / arbitrary k and an even modulus: only the limb model is compared (no L0)
+        m = rng.getrandbits(64 * n)
+        yield f"c08.hook.amm {n} {hx(value(rng, n))} {hx(value(rng, n))} {hx(m)} {hx(rng.getrandbits(64))}"
+        yield f"c08.hook.redc_inner {n} {hx(value(rng, n))} {hx(value(rng, n))} {hx(m)} {hx(rng.getrandbits(64))}"
+    # ---- private parameter fields
+    for n in FIXED:
+        for m in moduli(rng, n):
+            yield f"c08.hook.params dyn {n} {hx(m)}"
+            yield f"c08.hook.params dynv {n} {hx(m)}"
+    for n in (list(range(1, 13)) + [17, 33] if quick else range(1, 41)):
+        for m in moduli(rng, n):
+            yield f"c08.hook.params boxed {n} {hx(m)}"
+            yield f"c08.hook.params boxedv {n} {hx(m)}"
+    for n, m in consts:
+        yield f"c08.hook.params dynfromconst {n} {hx(m)}"
+        yield f"c08.hook.params boxedfromconst {n} {hx(m)}"
+
+
 def gen(tier, rng):
     quick = tier == 'quick'
     maxlen = 64 if quick else 256
@@ -169,20 +220,6 @@ def gen(tier, rng):
                 yield f"c08.mul_mod dyn {n} {hx(a)} {hx(b)} {hx(m)}"
                 yield f"c08.mul_mod boxed {n} {hx(a)} {hx(b)} {hx(m)}"
 
-    # ---- crate-internal functions: only when the hooks requested in notes/C08.md exist in /repo AND the harness
-    #      has the ops (neither is the case by default)
-    if os.environ.get('VERIF_C08_HOOKS') == '1':
-        for n in [1, 2, 3, 4, 8]:
-            R = 1 << (64 * n)
-            for m in moduli(rng, n):
-                k = (-pow(m, -1, 1 << 64)) % (1 << 64)
-                for _ in range(4 if quick else 40):
-                    x, y = rng.choice([R - 1, rng.getrandbits(64 * n), operand(rng, n, m)]), value(rng, n)
-                    yield f"c08.hook.amm {n} {hx(x)} {hx(y)} {hx(m)} {hx(k)}"
-                    yield f"c08.hook.amm_by_one {n} {hx(x)} {hx(m)} {hx(k)}"
-                    T = rng.randrange(R * R)
-                    yield f"c08.hook.redc_inner {n} {hx(T % R)} {hx(T // R)} {hx(m)} {hx(k)}"
-
     # ---- histories
     for rep in range(hreps):
         for n in FIXED:
@@ -208,6 +245,10 @@ def gen(tier, rng):
         m = rng.choice(moduli(rng, n))
         kind = rng.choice(['dyn', 'dynv', 'boxed', 'boxedv'])
         yield hist_line(rng, kind, n, m, rng.randrange(3, 17))
+
+    # ---- crate-internal functions through crypto_bigint::verif_hooks (emitted last from their own PRNG stream:
+    #      the public lines above are the same as before the hooks existed)
+    yield from hook_lines(tier, random.Random(rng.getrandbits(32)), consts)
 
 
 def with_all_fixed():
